@@ -99,6 +99,8 @@ def h_bids(sym, perm, vx, vy, tx, ty):
         t.runner = Rec(t)
 
     def changeStamp(stamp):
+        if stamp > 12:
+            raise RuntimeError("run did not end by tick 12 (controller bids stop all at tick 5)")
         store.stamp = stamp
     store.changeStamp = changeStamp
     sk = skedding.Skedder(name="s", period=1.0, houses=houses)
@@ -193,6 +195,8 @@ def h_fiats(sym, f0, f1, f2):
         world.now = stamp
         k = tick[0]
         tick[0] += 1
+        if k > 12:
+            raise RuntimeError("run did not end by tick 12")
         v = sym.int("sg%d" % k, 0, 1)
         x = sym.int("sx%d" % k, 0, 1)
         sg.value = v
